@@ -1265,3 +1265,42 @@ def _sp_pair_ok(eng, args, kw, n):
     else:
         a, b = pair_fst(args[0].term), pair_snd(args[0].term)
     return P(BOOL, z3.Or(z3.And(a == i, b == o), Mirror(a, b, i, o)))
+
+
+# ---------------------------------------------------------------- str.isalnum / isalpha / isdigit (E-strclass)
+def _str_class(name, ascii_class):
+    """Unicode-aware character-class predicates: exact on ASCII-only strings (non-empty and every character in the
+    ASCII part of the class), uninterpreted on strings with a character above 127."""
+    def h(eng, args, kw, node):
+        eng.used_assumptions.add("E-strclass: str.%s is exact on ASCII strings and unspecified beyond" % name)
+        t = eng.term(args[0], STR)
+        f = uf("py_" + name, S, z3.BoolSort())
+        ascii_all = z3.Star(z3.Range(zstr(chr(0)), zstr(chr(127))))
+        cls = z3.Plus(z3.Union(*[z3.Range(zstr(a), zstr(b)) for a, b in ascii_class]))
+        eng.st.pc.append(z3.Implies(z3.InRe(t, ascii_all), f(t) == z3.InRe(t, cls)))
+        return P(BOOL, f(t))
+    return h
+
+
+R.ext["str.isalnum"] = _str_class("isalnum", [("0", "9"), ("A", "Z"), ("a", "z")])
+R.ext["str.isalpha"] = _str_class("isalpha", [("A", "Z"), ("a", "z")])
+R.ext["str.isdigit"] = _str_class("isdigit", [("0", "9"), ("0", "9")])
+
+
+@R.external("cell.union")
+def ext_set_union(eng, args, kw, node):
+    """s.union(iterable): a NEW set (the receiver is not changed) holding the members of both"""
+    recv, other = args
+    c = eng.st.heap[recv.rid]
+    if not (isinstance(c, P) and c.ty.kind == "set"):
+        raise Unsupported("union on %r" % (c,))
+    o = lib.cell(eng, other)
+    if isinstance(o, P) and o.ty.kind == "set":
+        new = z3.Const(eng.fresh_name("set.union"), c.term.sort())
+        xx = z3.Const(eng.fresh_name("set.x"), S)
+        eng.st.schemas.append(Schema("set.union2", [xx], z3.Select(new, xx) == z3.Or(z3.Select(c.term, xx), z3.Select(o.term, xx))))
+        return lib.alloc(eng, Ty("setcell", STR), P(c.ty, new), "cell.set")
+    sq = lib.seq_of(eng, other)
+    if sq is None:
+        return lib.alloc(eng, Ty("setcell", STR), P(c.ty, c.term), "cell.set")
+    return lib.alloc(eng, Ty("setcell", STR), P(c.ty, _set_of_seq(eng, c.term, sq.term)), "cell.set")
